@@ -65,6 +65,7 @@ type Obligation struct {
 
 // FV verifies one function (with its inlined callees).
 type FV struct {
+	useClock  bool // the contracts in play use now(): keep a logical clock
 	imkCtr    int
 	ptrLocs   map[Term]*Loc // pointer terms that denote locations inside values (element / field-of-element addresses)
 	noTriggers bool // proving a lemma: its own trigger annotations are not emitted
@@ -725,7 +726,7 @@ func (v *FV) preserveAcrossHavocIn(prev, s *Snapshot, loopBody map[*ssa.BasicBlo
 		// objects are never un-allocated
 		v.emit(fmt.Sprintf("(assert (>= %s %s))", v.topOf(s), v.topOf(prev)))
 	}
-	for _, g := range []string{"CALLS", "ARGNN", "ARGV", "LOCKED", "CALLS$n", "ARGNN$n", "ARGV$n", "LOCKED$n"} {
+	for _, g := range []string{"CALLS", "ARGNN", "ARGV", "LOCKED", "CLOCK", "CALLS$n", "ARGNN$n", "ARGV$n", "LOCKED$n"} {
 		if _, ok := v.arrays[g]; ok {
 			s.over[g] = v.heapGet(prev, g)
 		}
